@@ -168,6 +168,8 @@ package keeper
 //@     && $bal[accAddress][$vestingDenom] == old($bal[accAddress][$vestingDenom]) - amount
 //@   ensures forall a: str :: {$bal[a]} a != modaddr("cfevesting") && a != accAddress ==> $bal[a] == old($bal[a])
 //@   ensures forall d: str :: {$bal[modaddr("cfevesting")][d]} d != $vestingDenom ==> $bal[modaddr("cfevesting")][d] == old($bal[modaddr("cfevesting")][d])
+//@   // acceptance witnesses: the whole balance can be locked, and so can nothing at all beyond the checks' boundaries
+//@   reach [accepts-whole-balance] err == nil && amount > 0 && amount == balance.Amount
 //@   prop C05 C20
 
 //@ // ---- typed ghost views of vesting types and vesting-account traces (accessor contracts assumed) ----
